@@ -24,7 +24,10 @@ Import ListNotations.
 
 (* ---------------- programs ---------------- *)
 Inductive tbl := TModels | TMeta.
-Inductive rd := RMaster (t : tbl) | RInfo (t : tbl) | RLookup.
+Inductive rd :=
+| RMaster (t : tbl) | RInfo (t : tbl)
+| RLookup      (* SELECT ... FROM models WHERE key; the row (or None) is kept in a variable *)
+| RFetch.      (* the same SELECT whose single row is unpacked at once: TypeError when there is none *)
 Inductive wr :=
 | WDrop (t : tbl) | WCreate (t : tbl)
 | WMetaKeys                 (* INSERT OR IGNORE INTO metadata *)
@@ -63,6 +66,7 @@ Definition r_cols := 2.  (* columns == expected_columns *)
 Definition r_mok := 3.   (* table_correct *)
 Definition r_xok := 4.   (* metadata_table_correct *)
 Definition r_hit := 5.   (* result (lookup) *)
+Definition r_stale := 6. (* last_hit < yesterday, of the row just looked up *)
 
 (* the schema check of one table (parser.py:843-877 models, 881-912 metadata) *)
 Definition schema_tx (imm : bool) (t : tbl) (rex rok : nat) : prog :=
@@ -101,13 +105,15 @@ Definition prog_prefix : prog := prog_of false.
 
 (* ---------------- state ---------------- *)
 Inductive tst := TMissing | TWrong | TGood.
-Record db := Db { d_models : tst; d_meta : tst; d_keys : bool; d_rows : list nat }.
+(* a cached row: (text id, age of last_hit in days) *)
+Record db := Db { d_models : tst; d_meta : tst; d_keys : bool; d_rows : list (nat * nat) }.
 Definition empty_db := Db TMissing TMissing false [].
 
-Inductive err := EBusy | ECorrupt | ESchema | EConstraint | ENested | ENoFile | ENoConn.
+Inductive err := EBusy | ECorrupt | ESchema | EConstraint | ENested | ENoFile | ENoConn | ENoRow.
 Inductive status := Run | Fin | Err (e : err).
 
-Record params := Par { p_text : nat; p_init : bool; p_upd : bool; p_tree : bool }.
+(* p_exp = cache_expiration_days of the call *)
+Record params := Par { p_text : nat; p_init : bool; p_upd : bool; p_tree : bool; p_exp : nat }.
 
 Record thr := Thr {
   t_k : prog;               (* rest of the program; its head (if any) is the next statement *)
@@ -134,7 +140,7 @@ Definition cond_val (t : thr) (c : cond) : bool :=
   match c with
   | CReg r => reg (t_regs t) r
   | CInit => p_init (t_par t)
-  | CUpd => p_upd (t_par t)
+  | CUpd => p_upd (t_par t) || reg (t_regs t) r_stale
   | CTree => p_tree (t_par t)
   | CIFail => t_ifail t
   end.
@@ -172,7 +178,13 @@ Definition tget (t : tbl) (d : db) : tst := match t with TModels => d_models d |
 Definition is_good (s : tst) : bool := match s with TGood => true | _ => false end.
 Definition is_missing (s : tst) : bool := match s with TMissing => true | _ => false end.
 
-Definition apply_wr (text : nat) (w : wr) (d : db) : db + err :=
+Definition has_row (text : nat) (d : db) : bool := existsb (fun r => Nat.eqb text (fst r)) (d_rows d).
+Definition row_stale (text : nat) (d : db) : bool :=
+  existsb (fun r => Nat.eqb text (fst r) && Nat.ltb 1 (snd r)) (d_rows d).
+Definition set_rows (d : db) (rs : list (nat * nat)) : db := Db (d_models d) (d_meta d) (d_keys d) rs.
+
+Definition apply_wr (par : params) (w : wr) (d : db) : db + err :=
+  let text := p_text par in
   match w with
   | WDrop TModels => inl ((Db TMissing (d_meta d) (d_keys d) []))
   | WDrop TMeta => inl ((Db (d_models d) TMissing false (d_rows d)))
@@ -180,11 +192,19 @@ Definition apply_wr (text : nat) (w : wr) (d : db) : db + err :=
   | WCreate TMeta => if is_missing (d_meta d) then inl ((Db (d_models d) TGood false (d_rows d))) else inr ESchema
   | WMetaKeys => if is_good (d_meta d) then inl ((Db (d_models d) (d_meta d) true (d_rows d))) else inr ESchema
   | WTouchMeta => if is_good (d_meta d) then inl d else inr ESchema
-  | WPrune | WTouchRow => if is_good (d_models d) then inl d else inr ESchema
+  | WPrune =>      (* DELETE FROM models WHERE last_hit < now - cache_expiration_days *)
+      if is_good (d_models d) then inl (set_rows d (filter (fun r => Nat.leb (snd r) (p_exp par)) (d_rows d)))
+      else inr ESchema
+  | WTouchRow =>   (* UPDATE models SET last_hit = now WHERE key: nothing happens when the row is gone *)
+      if is_good (d_models d)
+      then inl (set_rows d (map (fun r => if Nat.eqb text (fst r) then (fst r, 0) else r) (d_rows d)))
+      else inr ESchema
   | WInsert rep =>
       if is_good (d_models d) then
-        if existsb (Nat.eqb text) (d_rows d) then (if rep then inl d else inr EConstraint)
-        else inl ((Db (d_models d) (d_meta d) (d_keys d) (text :: d_rows d)))
+        if has_row text d then
+          (if rep then inl (set_rows d ((text, 0) :: filter (fun r => negb (Nat.eqb text (fst r))) (d_rows d)))
+           else inr EConstraint)
+        else inl (set_rows d ((text, 0) :: d_rows d))
       else inr ESchema
   end.
 
@@ -192,7 +212,7 @@ Definition read_val (text : nat) (r : rd) (d : db) : bool + err :=
   match r with
   | RMaster t => inl (negb (is_missing (tget t d)))
   | RInfo t => inl (is_good (tget t d))
-  | RLookup => if is_good (d_models d) then inl (existsb (Nat.eqb text) (d_rows d)) else inr ESchema
+  | RLookup | RFetch => if is_good (d_models d) then inl (has_row text d) else inr ESchema
   end.
 
 (* ---------------- one attempt ---------------- *)
@@ -305,7 +325,15 @@ Definition exec (c : cfg) (tid : nat) (t : thr) (s : stmt) : res :=
               | None => mk (failed t ECorrupt) c OErr
               | Some d =>
                   match read_val (p_text (t_par t)) r d with
-                  | inl b => mk (pop (set_reg (with_lock t l (t_intx t) (t_view t)) dst b)) c ODone
+                  | inl b =>
+                      let t1 := set_reg (with_lock t l (t_intx t) (t_view t)) dst b in
+                      match r with
+                      | RLookup => mk (pop (set_reg t1 r_stale (row_stale (p_text (t_par t)) d))) c ODone
+                      | RFetch =>
+                          (* the statement itself succeeds; unpacking the missing row raises TypeError *)
+                          if b then mk (pop t1) c ODone else mk (failed t ENoRow) c ODone
+                      | _ => mk (pop t1) c ODone
+                      end
                   | inr e => mk (failed t e) c OErr
                   end
               end
@@ -318,7 +346,7 @@ Definition exec (c : cfg) (tid : nat) (t : thr) (s : stmt) : res :=
               match (match t_view t with Some d => Some d | None => content c g end) with
               | None => mk (failed t ECorrupt) c OErr
               | Some d =>
-                  match apply_wr (p_text (t_par t)) w d with
+                  match apply_wr (t_par t) w d with
                   | inl v =>
                       if t_intx t then mk (pop (with_lock t l true (Some v))) c ODone
                       else (* autocommit: the statement is its own transaction *)
@@ -419,7 +447,7 @@ Definition st_code (s : status) : nat :=
 
 Definition rows_of (c : cfg) : list nat :=
   match c_path c with
-  | Some g => match content c g with Some d => d_rows d | None => [] end
+  | Some g => match content c g with Some d => map fst (d_rows d) | None => [] end
   | None => []
   end.
 Definition same_set (a b : list nat) : bool :=
@@ -470,6 +498,8 @@ Definition check (s : stmt) (a : mode) : bool :=
   match s with
   | SConnect | SClose | SSet _ _ => true
   | SRemove => false
+  | SRead r _ =>                 (* RFetch may raise when another call's prune removed the row *)
+      negb (mode_eqb a MClosed) && negb (match r with RFetch => true | _ => false end)
   | SBegin _ => mode_eqb a MN
   | SWrite w => negb (mode_eqb a MClosed) && negb (mode_eqb a MD1)
                 && (match w with WInsert rep => rep | _ => true end)
